@@ -8,7 +8,7 @@ import plan
 TEXT = {
  "C01": ("Bounded proof (Kani/CBMC) that the real kernel-sum, coinbase-sum, kernel-offset-sum and transaction / body validation code accepts only balanced transactions and consults every signature and range proof (coinbase-flagged outputs included), with libsecp256k1 replaced by a homomorphic image of the commitment group and oracle bits for signatures / range proofs.",
          "partial: chain histories (pipe.rs, txhashset) and Block::validate as a whole are not claimed; known finding: sum_kernel_offsets ignores the negative offsets when no positive one is non-zero (witness obligation, KNOWN-FINDING); model group Z_2^16^2; trusted: rustc->Kani->CBMC->CaDiCaL and the stubs listed in evidence"),
- "C04": ("Bounded proof (Kani/CBMC) that the retarget functions are total, floored, damped/clamped and that the version schedule / graph weight arithmetic follow the rules, for fully symbolic difficulty windows.",
+ "C04": ("Bounded proof (Kani/CBMC) that the retarget functions are total, floored, damped/clamped and that the version schedule / graph weight arithmetic, the DMA/WTEMA dispatch and the choice of the PoW scaling factor follow the rules, for fully symbolic difficulty windows.",
          "partial: pipe::validate_header sequencing, DifficultyIter (LMDB), PoW and header-MMR root not claimed; bounds on window values stated in evidence"),
  "C05": ("Bounded proof (Kani/CBMC): Cuckatoo cycle verification agrees with an oracle written from the graph definition for every nonce tuple and every assignment of endpoints (proof size 2 quick, 4 thorough); PoW variant selection; proof (de)serialisation bit-exact, in-range, canonical padding.",
          "partial: the four cuckaroo* verifiers' cycle logic and proof sizes above 4 are not decided; the graph-seeding hash is replaced by an arbitrary function; per-query edge_bits and proof size are concrete"),
@@ -16,14 +16,14 @@ TEXT = {
          "bounds: position widths and MMR sizes (2-3 leaves quick) per obligation in evidence; the proof-soundness clause (corrupted proofs fail) is only a thorough-tier attempt under an ideal-hash stub and is not part of the claim"),
  "C08": ("Bounded proof (Kani/CBMC) by induction on the prune list's operations: from ANY valid prune-list state (maximal pruned subtrees + defining prefix sums, symbolic) every query equals the definition, and one real append / init_caches re-establishes such a state for the enlarged pruned set.",
          "partial: prune-list arithmetic over a correct bitmap (CRoaring replaced by a 64-value bitset); universe 31 positions quick / 63 thorough, at most 3 (4) entries in the pre-state; the file layer, PMMRBackend index translation, reopen and chain-level compaction are not claimed"),
- "C20": ("Bounded proof (Kani/CBMC) of the recoverability encoding that is left in Rust: key id <-> derivation path round trips, and for both proof-builder generations the rewind message written for (key id, switch) is read back as exactly that for the wallet's own commitment while any other message byte, amount, length or wallet recovers nothing (model keychain with an injective commit).",
+ "C20": ("Bounded proof (Kani/CBMC) of the recoverability encoding that is left in Rust: key id <-> derivation path round trips, and for both proof-builder generations the rewind message written for (key id, switch) is read back as exactly that for the wallet's own commitment while any other message byte, amount, length or wallet recovers nothing (model keychain with an injective commit); BlindingFactor::split is the group difference.",
          "thin partial claim: everything executed inside libsecp256k1-zkp (BIP32 derivation, commitments, bulletproofs, aggsig, blind sums) and build::transaction are not claimed"),
  "C10": ("Bounded proof (Kani/CBMC) of value round trip, canonical bytes (decode then re-encode reproduces the consumed bytes) and version-independent hashes for the fixed-size consensus objects.",
          "partial: fixed-size consensus / wire objects, the sorted-and-unique rule of body lists, the writer-side order of inputs at v2 / v3 and short-id-only compact block bodies; full transactions, blocks, headers and segments are thorough-tier attempts"),
  "C11": ("Bounded proof (Kani/CBMC): listed decoders and Segment::validate never panic / over-allocate / spin on any byte string or decoded-shape value of the listed sizes.",
          "buffer lengths and shapes enumerated (concrete per query), contents symbolic; allocation ghost stub; dev-profile overflow checks"),
- "C12": ("Bounded proof (Kani/CBMC): cut_through returns exactly the union minus the matched spend pairs (multiset equation), sorted, with CutThrough error iff a duplicate survives.",
-         "partial: generic algorithm instantiated with a cheap-Ord element type; aggregate/deaggregate/hydrate_from over hash-ordered types not claimed"),
+ "C12": ("Bounded proof (Kani/CBMC): cut_through returns exactly the union minus the matched spend pairs (multiset equation), sorted, with CutThrough error iff a duplicate survives; TransactionBody::validate_read refuses a body that still contains a spend of its own output (and, thorough, unsorted kernels / repeated NRD excesses).",
+         "partial: cut_through instantiated with a cheap-Ord element type; aggregate / deaggregate / hydrate_from over the hash-ordered types are attempt-tier obligations that never finished and are not claimed"),
  "C13": ("Bounded proof (Kani/CBMC) of the stateless height rules: absolute kernel lock heights in blocks, NRD relative-height range, body lock_height.",
          "partial: coinbase maturity, NRD index and every fork/rewind clause need LMDB/file state and are not claimed"),
  "C14": ("Bounded proof (Kani/CBMC) of the arithmetic the pool's fee gate compares (weight, fee, fee shift, shifted fee, accept fee) on real transactions with symbolic fee fields and configuration.",
